@@ -57,3 +57,45 @@ Definition translate_spec (ds : list decl) : st := translate terminal_names pred
 Definition spec_pure_ok (ds : list decl) : bool :=
   let s := translate_spec ds in
   pure_ok (rules_of_decls ds) (nu_of (s_memo s)) (s_prods s).
+
+(* ---- what C07 / C12 evaluate per specification ---- *)
+From Verif Require Import Emerge.SpecWf Reg.PatCheck.
+
+Definition spec_nu (ds : list decl) : strings -> kind -> string := nu_of (s_memo (translate_spec ds)).
+Definition spec_diags (ds : list decl) : list diag := final_diags (translate_spec ds).
+Definition spec_wf (ds : list decl) : bool := wf_spec predefs_s (spec_nu ds) ds.
+Definition spec_names_distinct (ds : list decl) : bool := names_distinct predefs_s ds.
+
+Fixpoint codes_of_str (s : string) : list N :=
+  match s with EmptyString => [] | String a t => N_of_ascii a :: codes_of_str t end.
+
+(* patterns are validated when the scanner automaton is built: every pattern definition must be accepted *)
+Definition patterns_ok (ds : list decl) : bool :=
+  forallb (fun d : string * string * bool => let '(_, v, isre) := d in
+                    if isre then accept_model escaped ascii_names uni_cats cls_letters rune_classes (codes_of_str v) else true)
+          (definitions (translate_spec ds)).
+
+Definition expected_defs (ds : list decl) : list (string * string * bool) :=
+  flat_map (fun a => map (fun v => (a, fst v, snd v)) (defs_of predefs_s ds a)) (names predefs_s ds).
+
+Definition def_eqb (x y : string * string * bool) : bool :=
+  String.eqb (fst (fst x)) (fst (fst y)) && String.eqb (snd (fst x)) (snd (fst y)) && Bool.eqb (snd x) (snd y).
+Fixpoint defs_eqb (a b : list (string * string * bool)) : bool :=
+  match a, b with
+  | [], [] => true
+  | x :: a', y :: b' => def_eqb x y && defs_eqb a' b'
+  | _, _ => false
+  end.
+Definition defs_seteqb (a b : list (string * string * bool)) : bool :=
+  forallb (fun x => existsb (def_eqb x) b) a && forallb (fun x => existsb (def_eqb x) a) b.
+
+Definition levels_eqb (a b : list (nat * list phandle)) : bool :=
+  Nat.eqb (length a) (length b) &&
+  forallb (fun xy : (nat * list phandle) * (nat * list phandle) => let '(x, y) := xy in
+                     Nat.eqb (fst x) (fst y) &&
+                     forallb (fun h => existsb (phandle_eqb h) (snd y)) (snd x) &&
+                     forallb (fun h => existsb (phandle_eqb h) (snd x)) (snd y)) (combine a b).
+
+(* every production handle of a recorded level is one of the grammar's own productions *)
+Definition handles_are_productions (s : st) : bool :=
+  forallb (fun lv : nat * list phandle => forallb (fun h => match h with PHProd A b => pmem (A, b) (s_prods s) | PHTerm _ => true end) (snd lv)) (s_precs s).
